@@ -132,8 +132,8 @@ def core_wrong(i, s, b):
         if not FAIL_DYNAMIC and not (type(r) is type(FAIL) and r == FAIL):
             return False, {{'clause': 'wrong-kind/missing/surplus argument must yield the documented failure value', 'function': NAME,
                            'vector': label, 'result': repr(r)[:80], 'expected': repr(FAIL)}}
-        if not (len(log) == 1 and log[0].startswith(PREFIX)):
-            return False, {{'clause': 'debug mode must log the failure exactly once', 'function': NAME, 'vector': label, 'log': repr(log)[:200]}}
+        if not (len(log) == 1 and NAME in log[0]):
+            return False, {{'clause': 'debug mode must log the failure exactly once, naming the function', 'function': NAME, 'vector': label, 'log': repr(log)[:200]}}
     return True, {{}}
 
 
